@@ -1,3 +1,54 @@
-import Rustemo.Model.LR
+import Rustemo.Proofs.NoPanic
+import Rustemo.Props.Example
+/-!
+# C15 — parsing is total: any input and lexer give Ok or Err, never a panic or hang
+
+LR half, no-panic part.  `LR.parse` models `LRParser::parse` with every `unwrap` / index /
+`split_off` / `expected[0]` of `lr/parser.rs`, `lr/builder.rs`, `error.rs` as an explicit
+`.panic site`; `env.recog` is an arbitrary recognizer function (any input, any matches) and
+`env.custom` selects the string lexer or one of the adversarial user lexers that ignore the expected
+set.  `Cert.structural` and `Cert.total` are executable certificates run by the driver on the table
+dumped from the real compiler (for the layout automaton as well when the grammar has a Layout rule).
+
+NOT proved: termination (the model takes fuel; hangs are decided by the watchdog of the
+correspondence harness, known finding F14) and the whole GLR half (oracle on the real parser only).
+-/
 namespace Rustemo.Props.C15
+open Rustemo
+
+/-- **Any non-panicking lexer.**  With a "next token" function that does not panic itself and hands
+    the parser state back, the parser loop never reaches a panic site, whatever tokens it delivers
+    (kinds the state has no action for surface as `err noAction`). -/
+theorem C15_lr_no_panic_any_lexer (env : Env) (nt : Ctx → Ctx × Outcome Tok) (sym : Nat)
+    (hs : Cert.structural env.g env.t 0 0 sym = true) (ht : Cert.total env.g env.t 0 = true)
+    (hnt : NtGood env.t nt) (ctx0 : Ctx) (h0 : ctx0.state < env.t.states.size) (fuel : Nat) :
+    ∀ site, (parseWith env nt 0 ctx0 fuel).2 ≠ .panic site := by
+  intro site h
+  have := parseWith_no_panic env nt 0 0 sym (Cert.structural_sound _ _ _ _ _ hs)
+    (Cert.total_sound _ _ _ ht) hnt ctx0 h0 fuel
+  rw [h] at this
+  exact this
+
+/-- **`LRParser::parse`** with the default string lexer (any recognizers, any input, whitespace
+    skipping or Layout rule, partial parsing on/off) or an adversarial user lexer never panics. -/
+theorem C15_lr_no_panic (env : Env) (sym : Nat)
+    (hs : Cert.structural env.g env.t 0 0 sym = true) (ht : Cert.total env.g env.t 0 = true)
+    (hlay : ∀ ls, env.t.layoutState = some ls → ∃ augl lsym,
+      Cert.structural env.g env.t ls augl lsym = true ∧ Cert.total env.g env.t ls = true)
+    (partialParse : Bool) (fuel : Nat) :
+    ∀ site, (parse env partialParse fuel).2 ≠ .panic site := by
+  intro site h
+  have := parse_no_panic env sym (Cert.structural_sound _ _ _ _ _ hs) (Cert.total_sound _ _ _ ht)
+    (by
+      intro ls hls
+      obtain ⟨augl, lsym, h1, h2⟩ := hlay ls hls
+      exact ⟨augl, lsym, Cert.structural_sound _ _ _ _ _ h1, Cert.total_sound _ _ _ h2⟩)
+    partialParse fuel
+  rw [h] at this
+  exact this
+
+/-- non-vacuity: the certificates hold for a concrete table without Layout rule -/
+example : Cert.structural Example.env.g Example.env.t 0 0 4 = true ∧
+    Cert.total Example.env.g Example.env.t 0 = true ∧ Example.env.t.layoutState = none := by decide
+
 end Rustemo.Props.C15
